@@ -51,6 +51,12 @@ FILTERS = [
     ('${%data_category} == 3 or (${%edition} == 2 and ${%data_category} == 0) or ${ %edition } == 4',
      lambda m: m['data_category'] == 3 or (m['edition'] == 2 and m['data_category'] == 0) or m['edition'] == 4),
     ('${%n_subsets} + ${%edition} > 5 and not (${%n_subsets} == 3)', lambda m: m['n_subsets'] + m['edition'] > 5 and not m['n_subsets'] == 3),
+    # names held by several sections: '%name' is the FIRST section that has it, whatever earlier messages looked like
+    ('${%reserved_bits} == "00000000"', lambda m: m['first_reserved_bits'] == '00000000'),
+    ('${%section_length} == 22', lambda m: m['section1_length'] == 22),
+    ('${%3.reserved_bits} == "00000001" or ${%reserved_bits} == "00000001"', lambda m: m['reserved3'] == '00000001' or m['first_reserved_bits'] == '00000001'),
+    ('${%flag_bits} == "0000001"', lambda m: m['flag_bits1'] == '0000001'),
+    ('${%3.section_length} > ${%section_length}', lambda m: m['section3_length'] > m['section1_length']),
 ]
 
 
@@ -62,8 +68,15 @@ def anchors():
 def known_meta(msg):
     m = dict(R.DEFAULT_META)
     m.update(msg.meta or {})
+    s1 = 22 if msg.edition == 4 else 18
+    s3 = 7 + 2 * len(msg.ids)
+    if msg.edition <= 3 and s3 % 2:
+        s3 += 1
     return dict(data_category=m['data_category'], n_subsets=msg.nsub, edition=msg.edition,
-                is_compressed=msg.compressed, master_table_version=m['master_table_version'], length=len(msg.bytes))
+                is_compressed=msg.compressed, master_table_version=m['master_table_version'], length=len(msg.bytes),
+                reserved3=m['reserved3'], flag_bits1=m['flag_bits1'],
+                first_reserved_bits=(m['reserved2'] if msg.sec2 is not None else m['reserved3']),
+                section1_length=s1, section3_length=s3)
 
 
 def collect(gen, cap):
